@@ -290,12 +290,12 @@ HttpHdrCc::packInto(Packable * p) const
                 break;
             case HttpHdrCcType::CC_PRIVATE:
                 if (private_.size())
-                    p->appendf("=\"" SQUIDSTRINGPH "\"", SQUIDSTRINGPRINT(private_));
+                    p->appendf("=" SQUIDSBUFPH, SQUIDSBUFPRINT(httpHeaderQuoteString(private_.termedBuf())));
                 break;
 
             case HttpHdrCcType::CC_NO_CACHE:
                 if (no_cache.size())
-                    p->appendf("=\"" SQUIDSTRINGPH "\"", SQUIDSTRINGPRINT(no_cache));
+                    p->appendf("=" SQUIDSBUFPH, SQUIDSBUFPRINT(httpHeaderQuoteString(no_cache.termedBuf())));
                 break;
             case HttpHdrCcType::CC_NO_STORE:
                 break;
